@@ -1,3 +1,4 @@
+import RossModel.Spec.Frames
 import RossModel.Frame
 import RossModel.Lemmas.Bits
 /-!
@@ -5,9 +6,7 @@ import RossModel.Lemmas.Bits
 -/
 namespace Ross
 
-/-- the identifier layout stated arithmetically -/
-def layoutId (f : Frame) : Nat :=
-  bit f.notError * 2^28 + bit f.start * 2^27 + bit f.multi * 2^26 + (f.fid / 256 % 16) * 2^16 + f.addr.toNat
+
 
 theorem bit_lt (b : Bool) : bit b < 2 := by cases b <;> simp [bit]
 
@@ -67,10 +66,7 @@ theorem layout_fields (f : Frame) :
   unfold layoutId
   cases f.notError <;> cases f.start <;> cases f.multi <;> simp [bit] <;> omega
 
-/-- frames the CAN link carries faithfully (everything `to_frames` produces) -/
-def Frame.CanCanonical (f : Frame) : Prop :=
-  f.WF ∧ (if f.multi then 1 ≤ f.dataLen ∧ f.idLast = f.start ∧ (f.data.headD 0).toNat = f.fid % 256
-          else f.start = true ∧ f.idLast = true ∧ f.fid = 0)
+
 
 theorem fromCan_layoutId (f : Frame) (h : f.CanCanonical) :
     fromCan { ext := true, id := layoutId f, rtr := false, dlc := f.dataLen, data := f.data.take f.dataLen } = .ok f := by
